@@ -98,6 +98,7 @@ class Frame(AV):
         self.filters = []
         self.written = set()
         self.labels_positional = False
+        self.lab_root = object()  # family of row labels (E11): kept by copies / selections / sorts, renewed by reset_index
 
     def col(self, name):
         if name in self.cols:
@@ -117,6 +118,7 @@ class Frame(AV):
         f.filters = list(self.filters)
         f.written = set(self.written)
         f.labels_positional = self.labels_positional
+        f.lab_root = self.lab_root
         for k, v in kw.items():
             setattr(f, k, v)
         return f
